@@ -183,6 +183,18 @@ class ExprCanon(ast.NodeTransformer):
         if isinstance(f, ast.Name) and f.id not in self.bound and len(node.args) == 1 and not node.keywords and (
                 (f.id == "dict" and isinstance(node.args[0], ast.Dict)) or (f.id == "list" and isinstance(node.args[0], ast.List)) or (f.id == "set" and isinstance(node.args[0], ast.Set))):
             return node.args[0]
+        # (lambda x: E)(a) -> E[x := a]   (positional, atomic arguments: beta reduction cannot duplicate or reorder an effect)
+        if isinstance(f, ast.Lambda) and not node.keywords and not f.args.vararg and not f.args.kwarg and not f.args.kwonlyargs and not f.args.defaults \
+                and len(node.args) == len(f.args.posonlyargs + f.args.args) and all(isinstance(a, (ast.Name, ast.Constant)) or (isinstance(a, ast.Attribute) and isinstance(a.value, ast.Name)) for a in node.args):
+            import copy as _c
+            m = {p.arg: a for p, a in zip(f.args.posonlyargs + f.args.args, node.args)}
+            inner_binds = {x.arg for l in ast.walk(f.body) if isinstance(l, ast.Lambda) for x in l.args.args} | \
+                {n.id for c in ast.walk(f.body) if isinstance(c, ast.comprehension) for n in ast.walk(c.target) if isinstance(n, ast.Name)}
+            if not (set(m) & inner_binds) and not any(isinstance(a, ast.Name) and a.id in inner_binds for a in node.args):
+                class _B(ast.NodeTransformer):
+                    def visit_Name(self, n):
+                        return _c.deepcopy(m[n.id]) if n.id in m and isinstance(n.ctx, ast.Load) else n
+                return ast.copy_location(_B().visit(_c.deepcopy(f.body)), node)
         # str.lower(x) -> x.lower()   (unbound method of str applied to its receiver)
         if isinstance(f, ast.Attribute) and isinstance(f.value, ast.Name) and f.value.id == "str" and "str" not in self.bound and node.args and not isinstance(node.args[0], ast.Starred) \
                 and f.attr in ("lower", "upper", "strip", "lstrip", "rstrip", "title", "capitalize", "casefold", "split", "startswith", "endswith", "replace", "join", "format", "isidentifier"):
